@@ -48,6 +48,16 @@ CHECKS["C19"] = ("Coq theorems over the mirrored syn::Type grammar (every form, 
          "never a name outside the set (type params and lifetimes), collections are unions, non-use positions. Tied to the code by grammar-generated types with parameters planted at use and non-use positions "
          "(the planting is the ground truth), the syn tree mirrored into the model by the harness. The impl-header half is checked through derive::* (see C10/C06 machinery).",
          "Coq proof (induction over a nested syntax tree against an inductive occurrence relation) + per-run differential correspondence")
+CHECKS["C06"] = ("Coq theorems over a transliteration of core/src/options (all parse_nested chains, parse_attributes / parse_body / validate_body with the accumulator discipline and every `?`): for every declaration "
+         "and each of the six derives the outcome is an accepted receiver xor a rejection with at least one error; unions, enums under element-level traits and unrepresentable tuple bodies are rejections. "
+         "Tied to the code by (1) a grammar of DeriveInput items with #[darling] attributes from well-formed lists to arbitrary token trees on container/variant/field positions run through darling_core::derive::* "
+         "under catch_unwind and compared with the model on accept/reject and diagnostics, (2) the observation-level predicate (exactly one impl of the requested trait xor diagnostics, no panic), "
+         "(3) an inventory of every panic site of core/src and macro/src with the reason it is unreachable.",
+         "Coq proof (case analysis over a transliterated validator) + per-run differential correspondence + panic-site inventory")
+CHECKS["C10"] = ("Coq model Options/Resolve.v of the order-sensitive derive-time validation and an ORDER-FREE executable reading of the property (Spec/C10.v: counts over the set of options of each element, body rules); "
+         "theorem: a rejection is never empty; the correspondence check compares model and code on accept/reject AND on every diagnostic's position and message, in order, and evaluates the order-free "
+         "specification on the code's verdict - exhaustively for all ordered singles/pairs/(triples) of field options x every attribute split, all ordered pairs of container options, variant option subsets, body rules, six derives.",
+         "Coq model + order-free executable specification evaluated on the implementation's verdict; per-run differential correspondence (exhaustive over option pairs/triples and attribute splits)")
 PARTIAL = {}
 def chk(pid):
     text, tech = CHECKS[pid]
